@@ -59,8 +59,8 @@ CLAIMS = {
              "carried by the correspondence: generated programs x argument tuples x compilation routes (pairwise-covering subset of "
              "the 128 option combinations in quick, all 128 in thorough), each compiled kernel executed by the event-logging "
              "interpreter and compared with the Lean reference evaluator of the source (Model/Lang.lean) and so with every other route.",
-        note=TB + "Partial (see text). Known findings F4, F15, F16 have their root cause in kirin and are reported as KNOWN-FINDING, "
-                  "each only for the program feature / route that characterises it.",
+        note=TB + "Partial (see text). Known findings F4, F15, F16, F26 (root cause in kirin) and F24 (bloqade-geometry equality + kirin's "
+                  "constant join) are reported as KNOWN-FINDING, each only for the program feature / route that characterises it.",
         technique="Lean 4 theorems (regenerated purity table, injection-route corollary) + route-matrix differential runs against a Lean reference evaluator",
         ref="§3 C04"),
     "C05": dict(
